@@ -289,6 +289,49 @@ theorem mapSet_mem {m : List (Key × RSet)} {k k' : Key} {v rs : RSet}
   · rename_i hkk; cases heq; exact Or.inl ⟨hkk, rfl⟩
   · cases heq; exact Or.inr hm
 
+theorem mapInsert_spec {m : List (Key × RSet)} (hinv : ∀ k rs, (k, rs) ∈ m → GoodSet k rs)
+    {t : RType} (ht : Stored t) {record : Rec} (hf : record.name.fqdn = true) :
+    NoPanic (mapInsert m t record) ∧
+    ∀ m', mapInsert m t record = .ok m' → ∀ k rs, (k, rs) ∈ m' → GoodSet k rs := by
+  unfold mapInsert
+  simp only
+  cases hlk : List.lookup (keyOf record.name t) m with
+  | some rs =>
+    simp only
+    have hmem := lookup_mem hlk
+    have hg := hinv _ _ hmem
+    by_cases hsoa : t = .soa
+    · simp only [hsoa, ↓reduceIte]
+      exact ⟨NoPanic.err, by intro _ h; simp at h⟩
+    · simp only [hsoa, ↓reduceIte]
+      have hspec := RSet.insert_spec (t := t) (record := record) hg rfl hf ht
+      constructor
+      · exact NoPanic.bind hspec.1 fun _ _ => NoPanic.ok _
+      · intro m' h
+        cases hins : rs.insert t record with
+        | ok rs' =>
+          rw [hins] at h
+          simp only [ZR.bind_ok, ZR.ok.injEq] at h
+          subst h
+          intro k' rs'' hm
+          rcases mapSet_mem hm with ⟨rfl, rfl⟩ | hm'
+          · exact hspec.2 _ hins
+          · exact hinv _ _ hm'
+        | err => rw [hins] at h; simp at h
+        | unmodelled => rw [hins] at h; simp at h
+        | panic s => rw [hins] at h; simp at h
+  | none =>
+    simp only
+    refine ⟨NoPanic.ok _, ?_⟩
+    intro m' h
+    simp only [ZR.ok.injEq] at h
+    subst h
+    intro k' rs' hm
+    simp only [List.mem_append, List.mem_singleton, Prod.mk.injEq] at hm
+    rcases hm with hm | ⟨rfl, rfl⟩
+    · exact hinv _ _ hm
+    · exact ⟨rfl, hf, ht, fun _ => by simp [RSet.ofRec]⟩
+
 theorem Ctx.insert_spec {cx : Ctx} (hinv : Inv cx) (parts : List Str) :
     NoPanic (cx.insert parts) ∧ ∀ cx', cx.insert parts = .ok cx' → Inv cx' := by
   unfold Ctx.insert
@@ -313,44 +356,20 @@ theorem Ctx.insert_spec {cx : Ctx} (hinv : Inv cx) (parts : List Str) :
           | none => exact ⟨NoPanic.err, by intro cx' h; simp at h⟩
           | some ttl =>
             simp only
-            cases hlk : List.lookup (keyOf { name with fqdn := true } t) cx.records with
-            | some rs =>
-              simp only
-              have hmem := lookup_mem hlk
-              have hg := hinv _ _ hmem
-              by_cases hsoa : t = .soa
-              · simp only [hsoa, ↓reduceIte]
-                exact ⟨NoPanic.err, by intro cx' h; simp at h⟩
-              · simp only [hsoa, ↓reduceIte]
-                have hspec := RSet.insert_spec (t := t)
-                  (record := { name := { name with fqdn := true }, cls := cx.cls, ttl := ttl, data := rdata })
-                  hg rfl rfl hst
-                constructor
-                · exact NoPanic.bind hspec.1 fun _ _ => NoPanic.ok _
-                · intro cx' h
-                  cases hins : rs.insert t { name := { name with fqdn := true }, cls := cx.cls, ttl := ttl, data := rdata } with
-                  | ok rs' =>
-                    rw [hins] at h
-                    simp only [ZR.bind_ok, ZR.ok.injEq] at h
-                    subst h
-                    intro k' rs'' hm
-                    rcases mapSet_mem hm with ⟨rfl, rfl⟩ | hm'
-                    · exact hspec.2 _ hins
-                    · exact hinv _ _ hm'
-                  | err => rw [hins] at h; simp at h
-                  | unmodelled => rw [hins] at h; simp at h
-                  | panic s => rw [hins] at h; simp at h
-            | none =>
-              simp only
-              refine ⟨NoPanic.ok _, ?_⟩
-              intro cx' h
-              simp only [ZR.ok.injEq] at h
-              subst h
-              intro k' rs' hm
-              simp only [List.mem_append, List.mem_singleton, Prod.mk.injEq] at hm
-              rcases hm with hm | ⟨rfl, rfl⟩
-              · exact hinv _ _ hm
-              · exact ⟨rfl, rfl, hst, fun _ => by simp [RSet.ofRec]⟩
+            have hspec := mapInsert_spec (m := cx.records) hinv hst
+              (record := { name := { name with fqdn := true }, cls := cx.cls, ttl := ttl, data := rdata }) rfl
+            constructor
+            · exact NoPanic.bind hspec.1 fun _ _ => NoPanic.ok _
+            · intro cx' h
+              cases hins : mapInsert cx.records t { name := { name with fqdn := true }, cls := cx.cls, ttl := ttl, data := rdata } with
+              | ok m' =>
+                rw [hins] at h
+                simp only [ZR.bind_ok, ZR.ok.injEq] at h
+                subst h
+                exact hspec.2 _ hins
+              | err => rw [hins] at h; simp at h
+              | unmodelled => rw [hins] at h; simp at h
+              | panic s => rw [hins] at h; simp at h
 
 theorem onToken_spec {cx : Ctx} (hinv : Inv cx) (st : PState) (t : Token) :
     NoPanic (onToken cx st t) ∧ ∀ cx' st', onToken cx st t = .ok (cx', st') → Inv cx' := by
